@@ -737,3 +737,130 @@ V("C14", "C14.R6", "c14-inlocal-looks-up-chain", "shroud/util.py",
 V("C14", "C14.R6", "c14-update-noreplace-overwrites", "shroud/util.py",
   "            elif not hasattr(self, key):\n                setattr(self, key, value)",
   "            elif key not in self.__dict__:\n                setattr(self, key, value)", "fire", "Scope.update")
+
+# ---------------------------------------------------------------------------
+# C11
+# ---------------------------------------------------------------------------
+V("C11", "C11.R1", "c11-fortran-twin-uses-c-names", "shroud/ast.py",
+  '''                    fvalue = todict.print_node_identifier(
+                        member.value, fmtmembers, "F_enum_member")''',
+  '''                    fvalue = todict.print_node_identifier(
+                        member.value, fmtmembers, "C_enum_member")''', "fire", "")
+V("C11", "C11.R1", "c11-fvalue-not-reset", "shroud/ast.py",
+  '''                    cvalue = int(todict.print_node(member.value))
+                    fvalue = cvalue
+                    value_is_int = True''',
+  '''                    cvalue = int(todict.print_node(member.value))
+                    value_is_int = True''', "fire", "")
+V("C11", "C11.R1", "c11-f-value-only-explicit", "shroud/ast.py",
+  '''                fmt.C_value = cvalue # Only set if explicitly set by user.
+            fmt.F_value = fvalue     # Always set.''',
+  '''                fmt.C_value = cvalue # Only set if explicitly set by user.
+                fmt.F_value = fvalue     # Always set.''', "fire", "F_value")
+V("C11", "C11.R2", "c11-increment-two", "shroud/ast.py",
+  "                cvalue = cvalue + 1\n                fvalue = cvalue",
+  "                cvalue = cvalue + 2\n                fvalue = cvalue", "fire", "increment")
+V("C11", "C11.R2", "c11-silent-augassign", "shroud/ast.py",
+  "                cvalue = cvalue + 1\n                fvalue = cvalue",
+  "                cvalue += 1\n                fvalue = cvalue", "silent")
+V("C11", "C11.R2", "c11-incr-not-restarted", "shroud/ast.py",
+  "                    fbase = fvalue\n                    incr = 0\n",
+  "                    fbase = fvalue\n", "fire", "incr restart")
+V("C11", "C11.R3", "c11-shift-operator-added", "shroud/declast.py",
+  '''OPINFO_MAP = {
+    "+": OpInfo(1, "LEFT"),''',
+  '''OPINFO_MAP = {
+    "<<": OpInfo(0, "LEFT"),
+    "+": OpInfo(1, "LEFT"),''', "fire", "successor")
+V("C11", "C11.R4", "c11-modulo-added", "shroud/declast.py",
+  '''    "/": OpInfo(2, "LEFT"),''',
+  '''    "/": OpInfo(2, "LEFT"),
+    "%": OpInfo(2, "LEFT"),''', "fire", "OPINFO_MAP[%]")
+V("C11", "C11.R4", "c11-precedence-swapped", "shroud/declast.py",
+  '''    "+": OpInfo(1, "LEFT"),
+    "-": OpInfo(1, "LEFT"),
+    "*": OpInfo(2, "LEFT"),''',
+  '''    "+": OpInfo(2, "LEFT"),
+    "-": OpInfo(1, "LEFT"),
+    "*": OpInfo(2, "LEFT"),''', "fire", "precedence")
+V("C11", "C11.R5", "c11-rewrite-ignores-table", "shroud/todict.py",
+  '''            if node.name in self.symbols:
+                return self.symbols[node.name][self.key]
+            return node.name''',
+  '''            return node.name''', "fire", "PrintNodeIdentifier")
+V("C11", "C11.R5", "c11-parens-dropped", "shroud/todict.py",
+  '        return "(" + self.visit(node.node) + ")"', '        return self.visit(node.node)', "fire", "visit_ParenExpr")
+V("C11", "C11.R6", "c11-c-emitter-uses-f-value", "shroud/wrapc.py",
+  'append_format(output, "{C_enum_member} = {C_value},", fmt_id)',
+  'append_format(output, "{C_enum_member} = {F_value},", fmt_id)', "fire", "wrap_enum")
+
+# ---------------------------------------------------------------------------
+# C09
+# ---------------------------------------------------------------------------
+V("C09", "C09.R1", "c09-func-const-not-rendered", "shroud/declast.py",
+  '''            decl.append(")")
+            if self.func_const:
+                decl.append(" const")
+        for dim in self.array:''',
+  '''            decl.append(")")
+        for dim in self.array:''', "fire", "gen_decl_work:func_const")
+V("C09", "C09.R1", "c09-volatile-dropped-again", "shroud/declast.py",
+  '''            decl.append("const ")
+        if self.volatile:
+            decl.append("volatile ")
+
+        if self.attrs["_destructor"]:''',
+  '''            decl.append("const ")
+
+        if self.attrs["_destructor"]:''', "fire", "gen_decl_work:volatile")
+V("C09", "C09.R1", "c09-ptr-const-dropped", "shroud/declast.py",
+  '''        if self.const:
+            decl.append(" const")
+        if self.volatile:
+            decl.append(" volatile")
+
+    def __str__(self):
+        if self.const:''',
+  '''        if self.volatile:
+            decl.append(" volatile")
+
+    def __str__(self):
+        if self.const:''', "fire", "Ptr.gen_decl_work:const")
+V("C09", "C09.R1", "c09-new-parsed-field-unrendered", "shroud/declast.py",
+  '''                if self.token.value == "const":
+                    self.next()
+                    node.func_const = True''',
+  '''                if self.token.value == "const":
+                    self.next()
+                    node.func_const = True
+                    node.func_cv = "const"''', "fire", "func_cv")
+V("C09", "C09.R2", "c09-ptr-qualifier-before-star", "shroud/declast.py",
+  '''        if self.ptr:
+            decl.append(" ")
+            if kwargs.get("as_c", False):''',
+  '''        if self.const:
+            decl.append(" const")
+        if self.ptr:
+            decl.append(" ")
+            if kwargs.get("as_c", False):''', "fire", "Ptr.gen_decl_work:order")
+V("C09", "C09.R2", "c09-pointers-reversed", "shroud/declast.py",
+  '''            for ptr in self.pointer:
+                ptr.gen_decl_work(decl, **kwargs)''',
+  '''            for ptr in reversed(self.pointer):
+                ptr.gen_decl_work(decl, **kwargs)''', "fire", "pointer-order")
+V("C09", "C09.R3", "c09-printnode-unary-removed", "shroud/todict.py",
+  '''    def visit_UnaryOp(self, node):
+        return node.op + self.visit(node.node)''',
+  '''    def xvisit_UnaryOp(self, node):
+        return node.op + self.visit(node.node)''', "fire", "PrintNode.visit_UnaryOp")
+V("C09", "C09.R3", "c09-paren-flattened-in-parser", "shroud/declast.py",
+  "            node = ParenExpr(self.expression())", "            node = self.expression()", "fire", "paren")
+V("C09", "C09.R4", "c09-right-assoc-minus", "shroud/declast.py",
+  '    "-": OpInfo(1, "LEFT"),', '    "-": OpInfo(1, "RIGHT"),', "fire", "assoc")
+V("C09", "C09.R5", "c09-canonical-typo", "shroud/declast.py",
+  '    unsigned_long_int="unsigned_long",', '    unsigned_long_int="unsigned_lon",', "fire", "unsigned_long_int")
+V("C09", "C09.R2", "c09-silent-reorder-independent", "shroud/declast.py",
+  '''        new.const = self.const
+        new.volatile = self.volatile''',
+  '''        new.volatile = self.volatile
+        new.const = self.const''', "silent")
